@@ -210,6 +210,22 @@ class RefKFAC:
         self.mini = 0
         return res, {'nu': nu, 'vg': vg, 'kappa': kappas, 'unclipped': out}
 
+    def save_state(self):
+        def c(t):
+            return None if t is None else t.clone()
+        return {'steps': self.steps, 'mini': self.mini, 'hp': dict(self.hp), 'fc': getattr(self, 'factors_changed', False),
+                'layers': {n: (c(L.A), c(L.G), None if L.snap is None else (L.snap[0].clone(), L.snap[1].clone(), L.snap[2]),
+                               list(L.accA), list(L.accG)) for n, L in self.layers.items()}}
+
+    def load_state(self, st):
+        self.steps, self.mini, self.hp, self.factors_changed = st['steps'], st['mini'], dict(st['hp']), st['fc']
+        for n, (A, G, snap, accA, accG) in st['layers'].items():
+            L = self.layers[n]
+            L.A = None if A is None else A.clone()
+            L.G = None if G is None else G.clone()
+            L.snap = None if snap is None else (snap[0].clone(), snap[1].clone(), snap[2])
+            L.accA, L.accG = list(accA), list(accG)
+
     def refresh_snapshots(self):
         """Second-order data recomputed from the current factors at the current damping (checkpoint load)."""
         lam = self.get('damping')
